@@ -53,7 +53,7 @@ fn do_same(ctx: &mut Ctx, f: &[BigInt], g: &[BigInt]) {
 }
 /// process level: `rust-number-theory <config>` with to_find = integral_basis ⇒ `reduced_index discriminant`
 fn do_cli(ctx: &mut Ctx, f: &[BigInt]) {
-    let cfg = format!("to_find = ['integral_basis']\n[input]\npolynomials = [{}]\n", toml_list(f));
+    let cfg = format!("to_find = ['integral_basis']\n[input]\npolynomials = {}\n", toml_polys(&[f], variant_of(&[show_ints(f)])));
     if let Some(out) = run_cli(&cfg) {
         let ans = if out.starts_with("panic") {
             out
@@ -657,6 +657,7 @@ pub fn generate(ctx: &mut Ctx) {
         }
     }
 
+    gen_cli_big_shift(ctx);
     // 9. changes of generator on the pool: θ+k, −θ, cθ (c ≤ 6: large prime-power indices), 1/θ
     let per = ctx.pick(3, 6);
     let pool2 = pool.clone();
@@ -684,6 +685,20 @@ pub fn generate(ctx: &mut Ctx) {
         for g in gs {
             full(ctx, &g);
             do_same(ctx, &f, &g);
+        }
+    }
+}
+
+/// the same fields through the command line with a generator shifted far away: coefficients beyond
+/// 2^53 and 2^64 (the configuration carries them as decimal strings; nothing may round them)
+fn gen_cli_big_shift(ctx: &mut Ctx) {
+    for f in [iv(&[-77, 0, 1]), iv(&[-2, 0, 0, 1]), iv(&[3, 0, 1]), iv(&[1, 1, 0, 1])] {
+        for k in [1_000_003i64, 1_000_000_000, 94_906_267, 3_037_000_501] {
+            let g = shift(&f, k);
+            do_cli(ctx, &g);
+            if f.len() == 3 {
+                do_same(ctx, &f, &g);
+            }
         }
     }
 }
